@@ -35,6 +35,7 @@ type Program struct {
 	defs           map[types.Object]*defInfo
 	globalsWritten map[*types.Var]bool
 	fieldIdxStored map[*types.Var]bool
+	quiet          map[*ast.FuncDecl]bool
 	funcOf         map[*ast.FuncDecl]*packages.Package
 	ssa            *ssaProgram
 	sums           *Summaries
